@@ -57,6 +57,13 @@ LEVEL_TEXT = (
     "(C11_invalid_document_refused_located; valid except dim => the cluster's closing tag, C11_dim_mismatch_document_located); blank character "
     "data between elements changes neither state, error kind nor members (C11_blank_text_same_verdict, any event list); oracle: 30 documents "
     "with two violations must be refused naming the line of the FIRST, and the same documents without white space between elements on line 2.  "
+    "DataParser: the deg2gon / IsFloat / IsInteger tests of 60 handlers are computed (Cond.lit; 15 handlers keep named oracle conditions), every "
+    "event gets a verdict ok/struct/field/computed/oracle and a document is accepted <=> no verdict other than ok occurs and its element "
+    "sequence followed through the tables alone ends in s_stop (C11_dp_document_accepted_iff); 188 stale-text_buffer documents with expectations "
+    "from the documented format.  Results reader: every token sequence the regenerated writer skeleton (C12 Gen/XmlSkeleton, re-generated by this "
+    "check too) can produce, whose operands are in the hand table of operand languages leafKind and whose two cov-mat number tests hold "
+    "(WriterData), is accepted by the reader model (C11_reader_accepts_writer_output; structure by one decide of an abstract run of the "
+    "reader's control over the skeleton, C11_reader_structure_covers_writer); oracle: gama-local's own results through the real reader.  "
     "Memory safety, termination and the located diagnostic of the real process are NOT "
     "proved: they are explored by running gama-local built with ASan+UBSan on grammar-derived, mutated and truncated inputs.")
 LEVEL_NOTE = (
@@ -77,6 +84,9 @@ TRUSTED = ["tools/gen/c11_gkf_automaton.py (mini-parser of gkfparser.cpp/.h; rai
            "per attribute + per handler, TieBroken on any statement it does not recognise)",
            "tools/gen/c11_adjres.py, tools/gen/c11_dataparser.py (same, for localnetwork_adjustment_results.{h,cpp} and dataparser*.cpp; "
            "the fixed callbacks startElement/endElement/get_int/... are compared textually with what the run model was written for)",
+           "Model/AdjResWriter.lean: hand tables leafKind (language of the operand the writer streams into each element: isInteger / isFloat / "
+           "apriori|aposteriori / free) and attrReq; that a finite double rendered by operator<< in scientific format is in FloatLang is NOT proved "
+           "(hypothesis WriterData of C11_reader_accepts_writer_output, with the cov-mat count tests dim <= unknowns and tmp_i == tmp_e)",
            "harness/c11_adjres.cpp: includes the header with `private` re-defined (access only) and re-registers expat trampolines "
            "around the real `final` callbacks; members the constructor leaves unassigned are preset (tmp_i == tmp_e)",
            "harness/c11_gkf.cpp: subclass of GKFparser printing expat's events and the protected state/errCode/errString",
